@@ -1,0 +1,26 @@
+//go:build verif
+
+// Package verifhook provides scheduling hooks for the runtime-verification harness. With the
+// `verif` build tag, Yield calls an atomically swappable callback so that a controlled scheduler
+// (or a delay injector) can decide what runs next at the points where the code holds no lock.
+package verifhook
+
+import "sync/atomic"
+
+var cb atomic.Pointer[func(string)]
+
+// Set installs (or, with nil, removes) the callback invoked by Yield.
+func Set(f func(point string)) {
+	if f == nil {
+		cb.Store(nil)
+		return
+	}
+	cb.Store(&f)
+}
+
+// Yield marks a point between two critical sections.
+func Yield(point string) {
+	if f := cb.Load(); f != nil {
+		(*f)(point)
+	}
+}
